@@ -43,4 +43,10 @@ VARIANTS = [
                (V, "        beta = -axis.x/abs(axis.x)*math.acos(", "        beta = sense*math.acos(")]},
     {'name': 'sense-taken-from-realigned-axis-silent', 'expect': 'pass',
      'edits': [(V, "        beta = -axis.x/abs(axis.x)*math.acos(", "        sense = 1.0 if axis.x < 0 else -1.0\n        beta = sense*math.acos(")]},
+    {'name': 'antiparallel-branch-turns-axis-only', 'rule': 'C20.R3',
+     'edits': [(V, "        beta = math.pi\n        rot_y = rotate_atoms_around_y_axis(beta)\n        vec = rot_y @ vec\n", "        beta = math.pi\n        rot_y = rotate_atoms_around_y_axis(beta)\n")]},
+    {'name': 'quarter-turn-by-hand-without-undo', 'rule': 'C20.R3',
+     'edits': [(V, "        else:\n            gamma = math.pi/2.0\n        rot_z = rotate_atoms_around_z_axis(gamma)\n        vec = rot_z @ vec\n        axis = rot_z @ axis\n", "            rot_z = rotate_atoms_around_z_axis(gamma)\n            vec = rot_z @ vec\n            axis = rot_z @ axis\n        else:\n            vec = Vector(-vec.y, vec.x, vec.z)\n            axis = Vector(-axis.y, 0.0, axis.z)\n")]},
+    {'name': 'z-alignment-duplicated-into-both-branches-silent', 'expect': 'pass',
+     'edits': [(V, "        else:\n            gamma = math.pi/2.0\n        rot_z = rotate_atoms_around_z_axis(gamma)\n        vec = rot_z @ vec\n        axis = rot_z @ axis\n", "            rot_z = rotate_atoms_around_z_axis(gamma)\n            vec = rot_z @ vec\n            axis = rot_z @ axis\n        else:\n            gamma = math.pi/2.0\n            rot_z = rotate_atoms_around_z_axis(gamma)\n            vec = rot_z @ vec\n            axis = rot_z @ axis\n")]},
 ]
